@@ -572,6 +572,12 @@ UnsubClauses(T, prev, ev, post) ==
   \cup If(post.subs # SelectSeq(prev.subs, LAMBDA x : x # ev.o), {C("C10:unsubscribe")})
   \cup If(post.core # prev.core, {C("C10:unsubscribe-changed-state")})
 
+(* unsubscribing one of several built-in observers: identities (not classes, not states) decide who leaves *)
+UnsubBuiltinClauses(T, prev, ev, post) ==
+       If(ev.out # "ok", {C("C10:unsubscribe-raised")})
+  \cup If(ev.after # SelectSeq(ev.before, LAMBDA x : x # ev.target), {C("C10:unsubscribe")})
+  \cup If(post.core # prev.core, {C("C10:unsubscribe-changed-state")})
+
 CreateOrGetClauses(T, prev, ev, post) ==
     LET i == FirstInstanceIdx(KindsOf(T.kinds, prev.subs), ev.cls)
     IN If(ev.out # "ok", {C("C10:create-or-get-raised")})
@@ -630,6 +636,7 @@ DClauses0(T, l, prev, post) ==
            [] ev.a = "Replay"      -> ReplayClauses(T, prev, ev, post)
            [] ev.a = "Create"      -> CreateClauses(T, prev, ev, post)
            [] ev.a = "Unsub"       -> UnsubClauses(T, prev, ev, post)
+           [] ev.a = "UnsubBuiltin" -> UnsubBuiltinClauses(T, prev, ev, post)
            [] ev.a = "CreateOrGetCond" -> CreateOrGetCondClauses(T, prev, ev, post)
            [] ev.a = "CreateOrGet" -> CreateOrGetClauses(T, prev, ev, post)
            [] OTHER -> {C("M:unknown-event")}
